@@ -9,7 +9,8 @@ cd $WT && git checkout -q -- . && git apply $SD/patch.diff || { echo "$ID-$V: pa
 TESTS=$(cargo nextest run --workspace --no-fail-fast --offline 2>&1 | grep -E "Summary" | tail -1)
 DEMO=$SD/demo
 run_demo() {
-  ( cd $DEMO && if [ -f run.sh ]; then timeout 900 sh run.sh >/tmp/seed/$ID/$V/demo.$1.log 2>&1; elif grep -q '^\[\[test\]\]\|#\[test\]' -r src tests 2>/dev/null && ! [ -f src/main.rs ]; then timeout 600 cargo test --offline >/tmp/seed/$ID/$V/demo.$1.log 2>&1; else timeout 600 cargo run --offline >/tmp/seed/$ID/$V/demo.$1.log 2>&1; fi; echo $? )
+  : > /tmp/seed/$ID/$V/demo.$1.log
+  ( cd $DEMO && if [ -f run.sh ]; then timeout 900 sh run.sh >/tmp/seed/$ID/$V/demo.$1.log 2>&1; elif [ -d src/bin ] && ! [ -f src/main.rs ]; then rc=0; for b in src/bin/*.rs; do n=$(basename $b .rs); timeout 600 cargo run --offline --bin $n >>/tmp/seed/$ID/$V/demo.$1.log 2>&1 || rc=1; done; (exit $rc); elif grep -q '^\[\[test\]\]\|#\[test\]' -r src tests 2>/dev/null && ! [ -f src/main.rs ]; then timeout 600 cargo test --offline >/tmp/seed/$ID/$V/demo.$1.log 2>&1; else timeout 600 cargo run --offline >/tmp/seed/$ID/$V/demo.$1.log 2>&1; fi; echo $? )
 }
 WITH=$(run_demo with)
 git -C $WT checkout -q -- .
